@@ -41,8 +41,8 @@ def model_check(chk, thorough):
     chk.add_model("Swarm design=>contract, table layouts: 0..6 long-lived + 0/2 short-lived contacts (near/far), own-id contact "
                   "none/near/far, sample 0/1/3/8, flat/busy loads, clock 0..2, shards 0/1/3/7, thr/target 0/2/5, min 0/2", r2)
     if thorough:
-        r3 = vlib.mc("Swarm", "MC_Swarm_full.cfg", workers=12, timeout=1100, heap="6g")
-        chk.add_model("Swarm design=>contract, every table layout x shards 0..7 x target/min/threshold 0..5", r3)
+        r3 = vlib.mc("Swarm", "MC_Swarm_full.cfg", workers=12, timeout=1000, heap="6g")
+        chk.add_model("Swarm design=>contract, the table layouts of MC_Swarm (plus sample 1) x shards 0..7 x target/min/threshold 0..5", r3)
 
     try:
         for f in futs:
@@ -356,7 +356,7 @@ def run(chk):
     pool = formula + layouts
     ext = [extend(c, rng) for c in rng.sample(pool, min(len(pool), 1200 if not thorough else 12000))]
     run_and_validate(chk, [("tlc-cases-formula", formula), ("tlc-cases-layouts", layouts), ("tlc-cases-extended", ext),
-                           ("random-store", random_store(rng, 2000 if not thorough else 20000)),
+                           ("random-store", random_store(rng, 2000 if not thorough else 12000)),
                            ("random-node", random_node(rng, 300 if not thorough else 4000))])
     chk.cov["exhaustive"] = False
     chk.assumptions += [
